@@ -47,7 +47,7 @@ P = {
     "required_classes": ["apply/table/ok", "apply/table/refuse", "apply/pair/ok", "apply/corrupt/ok", "apply/corrupt/refuse",
                          "text/pair/ok", "text/corrupt/refuse", "diff/pair/ok", "diff/undiffable/refuse"],
     "signature": c04_sig,
-    "level_text": "The diff/apply design (operational four-case merge = declarative consistent/effect statement; apply(diff(A,B),A)=B for every expressible pair, also through the .tinydiff text) is model-checked exhaustively over the bounded universe (every action x target x old-value case at each of the 5 levels; all pairs of one-key-per-level trees; every single-action corruption of a valid diff); every explored case is replayed through MappingsDiff::apply_to / diff / tiny_v2_diff::read_file and compared with the specification's result; larger seeded random pairs and corrupted diffs executed by the real code are re-judged by TLC (trace validation).",
+    "level_text": "The diff/apply design (operational four-case merge = declarative consistent/effect statement; apply(diff(A,B),A)=B for every expressible pair, also through the .tinydiff text) is model-checked exhaustively over the bounded universe (every action x target x old-value case at each of the 5 levels; all pairs of one-key-per-level trees; every single-action corruption of a valid diff); every explored case is replayed through MappingsDiff::apply_to / diff / tiny_v2_diff::read_file and compared with the specification's result; larger seeded random pairs and corrupted diffs executed by the real code are re-judged by TLC (trace validation). Pairs differing only in comments include comments that are the empty string (a value a .tinydiff cannot spell: such diffs are exercised through the API only), and every diff that has comment lines is also read from a text in which the comment line of an element stands behind the lines of its members.",
     "level_note": "Trusted: TLC, the projection Mappings <-> abstract tree and the .tinydiff line joiner in harness/src/proj_quill.rs. Bounded: MC universe has one key per level; I2S inputs up to 12 classes. Parameter source names are outside the diff format and kept equal on both sides.",
     "assumptions": ["TLC/SANY/CommunityModules", "harness projection quill Mappings <-> abstract tree (proj_quill.rs)",
                     "line joiner for .tinydiff text", "bounded universe: one key per level (pairs), one focus node (table)"],
